@@ -31,6 +31,15 @@ func vhOpenRepo(path, namespace string, loaders []repository.ClockLoader) (repos
 	return vhRepo, nil
 }
 
+// VHSetRepo lets harnesses of other command packages choose the repository that LoadRepo
+// opens.
+func VHSetRepo(r *vrepo.Repo) { vhRepo = r }
+
+// VHNewEnv returns an environment with in-memory outputs.
+func VHNewEnv() *Env {
+	return &Env{Out: &TestOut{Buffer: &bytes.Buffer{}}, Err: &TestOut{Buffer: &bytes.Buffer{}}}
+}
+
 // VH_C05_cli: the command line opens the repository in a way that lets it rebuild missing
 // clocks: the clock loaders handed to OpenGoGitRepo cover every clock of every entity type
 // with Lamport clocks (what OpenGoGitRepo does with them is H_C05_open, what the loaders
